@@ -13,6 +13,7 @@
 //	CZ <comp>                    compressor chain at the snapshotter level, monitor only
 //	   ops: w <hex> | s | g <seed> <len> <kind>
 //	BG <seed> <len> <segsizes>   real 2 MB block size, multi-megabyte payload, monitor only
+//	PV                           pb.Snapshot.Validate: recorded sizes vs files; ops: f <haspath> <recorded> <actual|->
 //	VS <seed> <len>              stream validator: payload length x structural chunk cuts, monitor only
 package main
 
@@ -1207,6 +1208,67 @@ func runBG(id string, pseed uint64, n int, segSizes []int, st *vh.Stats) string 
 	return fmt.Sprintf("%s BG", id)
 }
 
+// ---------------------------------------------------------------- PV
+
+// runPV: the real pb.Snapshot.Validate on the file system the code uses. ops:
+// "f <has path 0/1> <recorded size> <actual size | - (no such file)>", the first one is
+// the main snapshot file, the others external files. T true, F false, P panic.
+// monitor: a snapshot with any file whose size differs from the record - shorter OR
+// longer - or is missing is never accepted.
+func runPV(id string, ops []string, st *vh.Stats) string {
+	fs := newFS()
+	pdir := dir + "/pv"
+	must(fs.RemoveAll(pdir))
+	must(fs.MkdirAll(pdir, 0755))
+	var ss pb.Snapshot
+	mismatch := ""
+	n := 0
+	for _, op := range ops {
+		f := strings.Fields(op)
+		if len(f) != 4 || f[0] != "f" {
+			continue
+		}
+		rec, _ := strconv.ParseUint(f[2], 10, 64)
+		path := ""
+		if f[1] == "1" {
+			path = fmt.Sprintf("%s/file-%d", pdir, n)
+			if f[3] != "-" {
+				act, _ := strconv.Atoi(f[3])
+				putFile(fs, path, make([]byte, act))
+				if uint64(act) != rec && mismatch == "" {
+					mismatch = fmt.Sprintf("file %d recorded %d bytes, on disk %d", n, rec, act)
+					if uint64(act) > rec {
+						st.Count("pv-longer")
+					} else {
+						st.Count("pv-shorter")
+					}
+				}
+			} else if mismatch == "" {
+				mismatch = fmt.Sprintf("file %d missing", n)
+			}
+		}
+		if n == 0 {
+			ss.Filepath, ss.FileSize = path, rec
+		} else {
+			ss.Files = append(ss.Files, &pb.SnapshotFile{Filepath: path, FileSize: rec, FileId: uint64(n)})
+		}
+		n++
+	}
+	res := "F"
+	if p := vh.Catch(func() {
+		if ss.Validate(fs) {
+			res = "T"
+		}
+	}); p != "" {
+		res = "P"
+	}
+	if res == "T" && mismatch != "" {
+		st.Violation(id, fmt.Sprintf("snapshot-size: pb.Snapshot.Validate accepted a snapshot whose files do not match the record: %s", mismatch))
+	}
+	st.Count("pv-" + res)
+	return fmt.Sprintf("%s PV %s", id, res)
+}
+
 // ---------------------------------------------------------------- VS (monitor only)
 
 // verdictCuts feeds file image f to the real validator cut at the given absolute offsets
@@ -1382,6 +1444,8 @@ func main() {
 			case "CZ":
 				comp, _ := strconv.Atoi(head[1])
 				obs = runCZ(id, comp, ops, a.Seed, st)
+			case "PV":
+				obs = runPV(id, ops, st)
 			case "VS":
 				ps, _ := strconv.ParseUint(head[1], 10, 64)
 				n, _ := strconv.Atoi(head[2])
